@@ -123,7 +123,7 @@ Definition corr (c : case) : bool :=
   let steps := map os_step (c_steps c) in
   let obss := map os_obs (c_steps c) in
   let H := H_tab (c_sha c) in
-  forallb orders_ok steps &&
+  forallb orders_ok steps && forallb (fun s => wf_instb (st_inst s)) steps &&
   all2 sres_matches (run_cached H (c_world c) [] steps) obss &&
   all2 fresh_matches (run_fresh (c_world c) steps) obss &&
   rep_ok steps (c_rep c).
